@@ -388,6 +388,16 @@ def getMatchScoreC (v : Variant) (d : Doc) : List (List MStep) → Nat → Score
     let sc := lpp v d alt n
     if sc == .none then getMatchScoreC v d alts n else sc
 
+/-- `XPath::getMatchScore(node, resolver, executionContext, theAlternative)`: skip `theAlternative`
+eOP_LOCATIONPATHPATTERNs, then `locationPathPattern` of the one reached; None when there is no such alternative -/
+def getMatchScoreAltC (v : Variant) (d : Doc) : List (List MStep) → Nat → Nat → Score
+  | [], _, _ => .none
+  | alt :: _, 0, n => lpp v d alt n
+  | _ :: alts, i + 1, n => getMatchScoreAltC v d alts i n
+
+def getMatchScoreAlt (v : Variant) (d : Doc) (P : Pattern) (i n : Nat) : Score :=
+  getMatchScoreAltC v d (P.map compilePath) i n
+
 /-- `XPath::getMatchScore` of the compiled pattern -/
 def getMatchScore (v : Variant) (d : Doc) (P : Pattern) (n : Nat) : Score :=
   getMatchScoreC v d (P.map compilePath) n
